@@ -43,16 +43,41 @@ def arm_blocks(fn, sw, start):
 
 
 def unit_rule(rep, fn, vals):
+    # the unit switch is recognised by what it does (its arms program it_value), not by how its operand is spelled
     sw = None
     for bid in fn.reachable_blocks():
         b = fn.blocks[bid]
         if b.term and b.term["k"] == "SwitchStmt" and b.cond is not None and "fflags" in key(b.cond):
-            c = core.strip_imp(b.cond)
-            if c.get("k") == "bin" and c["op"] == "&" and vals["TP_FF_T_TM_MASK"] in (const_val(c["x"]), const_val(c["y"])):
+            cs, df = switch_cases(fn, bid)
+            arms = set()
+            for tgt in list(cs.values()) + ([df] if df is not None else []):
+                arms |= set(arm_blocks(fn, bid, tgt))
+            if any(e.get("k") == "bin" and e["op"] == "=" and key(e["x"]).endswith("it_value.tv_sec") for a in arms for e in fn.blocks[a].elems):
                 sw = bid
     if sw is None:
-        rep.violated("R-UNIT", fn, "unit-switch", "a switch over (TP_FF_T_TM_MASK & fflags) programs the timer value", "not found")
+        rep.violated("R-UNIT", fn, "unit-switch", "a switch over the unit bits of fflags programs the timer value", "not found")
         return 0
+    c = core.strip_imp(fn.blocks[sw].cond)
+    used = None
+    if c.get("k") == "bin" and c["op"] == "&":
+        used = const_val(c["x"]) if const_val(c["x"]) is not None else const_val(c["y"])
+    desc = "the unit switch looks at the unit bits only (TP_FF_T_TM_MASK): TP_FF_T_ABSTIME or other fflags bits do not change the unit"
+    cs, df = switch_cases(fn, sw)
+    if used is None:
+        rep.undecided("R-UNIT", fn, "unit-switch-mask", desc, "operand %s" % key(c))
+    else:
+        bad = []
+        for name in UNITS:
+            for extra_name in ("", "TP_FF_T_ABSTIME"):
+                ff = vals[name] | (vals[extra_name] if extra_name else 0)
+                sel = cs.get(ff & used, df)
+                if sel != cs.get(vals[name]):
+                    bad.append("%s%s selects %s" % (name, "|" + extra_name if extra_name else "",
+                                                    "the default arm" if sel == df else "another unit's arm"))
+        if bad:
+            rep.violated("R-UNIT", fn, "unit-switch-mask", desc, "switch operand is (0x%x & fflags): %s" % (used, "; ".join(bad[:3])))
+        else:
+            rep.proved("R-UNIT", fn, "unit-switch-mask", desc, "operand mask 0x%x; 8 unit x ABSTIME combinations select the unit's own arm" % used)
     cases, dflt = switch_cases(fn, sw)
     mask = vals["TP_FF_T_TM_MASK"]
     missing = [v for v in range(mask + 1) if (v & mask) == v and v not in cases]
